@@ -18,8 +18,8 @@ ID = 'C05'
 LEVEL = 'fault_enumeration'
 EVAL_PROBE = 'crash-states'
 ENGINE = 'crash'
-BUDGET = {'quick': 450, 'thorough': 20000}
-WALL = {'quick': 50, 'thorough': 1800}
+BUDGET = {'quick': 700, 'thorough': 20000}
+WALL = {'quick': 90, 'thorough': 1800}
 RULE = ('scenarios: trash-put of 1-3 entries (every entry kind incl. deep trees and symlinks), first use of the trash dir or name collisions, '
         'home / .Trash/$uid / .Trash-$uid, same-volume (one rename) and cross-volume with the home fallback enabled twice (every copy and '
         'delete step is a crash point); for each scenario ALL crash points (kill before the k-th mutating op, k = 0..n) are visited; after '
